@@ -35,6 +35,9 @@ func init() {
 			{ID: "R07d", Floor: 2 + 1, Doc: "key flattening polarity in both AllKeysChan; every scanned key is sent", Run: ruleR07d},
 			{ID: "R07k", Floor: 3, Doc: "the sorted index is searched and read in the layout it was written in, with the whole-digest comparison (= R03i)", Run: ruleR03i},
 			{ID: "R07l", Floor: 2, Doc: "a generated index records true section offsets (= R03b)", Run: ruleR03b},
+			{ID: "R07m", Floor: 1, Doc: "Reader.Roots hands out the root list as decoded from the payload header (or its cached copy), not a filtered or rebuilt list: the storage front-end takes a CARv2's roots from here, the blockstore from the header itself", Run: ruleR07m},
+			{ID: "R07n", Floor: 1, Doc: "equal digests are legal neighbours in a bucket (the same block stored twice, or under two codecs): no check in package index rejects two records for comparing equal", Run: ruleR07n},
+			{ID: "R07o", Floor: 6, Doc: "the identity short-circuit of the read-only store is taken only with StoreIdentityCIDs off: with it on, Get answers from the archive like the scan does (= R04d)", Run: ruleR04d},
 		},
 	})
 }
@@ -589,4 +592,107 @@ func uniqStrings(in []string) []string {
 		}
 	}
 	return out
+}
+
+func ruleR07m(c *Ctx, r *Report) {
+	fn, err := c.Func(modV2, "Reader", "Roots")
+	if err != nil {
+		r.InfraFail("%v", err)
+		return
+	}
+	key := "roots-as-decoded@" + fnKey(fn)
+	bad := ""
+	n := 0
+	for _, ret := range returnsOf(fn) {
+		if len(ret.Results) == 0 || resultIsNilConst(ret, 0) {
+			continue
+		}
+		for _, o := range origins(retResult(ret, 0), originOpts{}) {
+			switch {
+			case o.Kind == "field" && o.Field != nil && (o.Field.Name() == "Roots" || o.Field.Name() == "roots"):
+				n++
+			case o.Kind == "const":
+			default:
+				bad = fmt.Sprintf("the list returned at %s is built from %s, not the header's own Roots: it can differ from what a scan of the payload header (and the other front-end) reports", c.Pos(ret.Pos()), o.Kind)
+			}
+		}
+	}
+	// and what is cached is the header's list
+	eachInstr(fn, func(in ssa.Instruction) {
+		st, ok := in.(*ssa.Store)
+		if !ok {
+			return
+		}
+		if fa, ok := st.Addr.(*ssa.FieldAddr); ok && fieldAddrIs(fa, modV2, "Reader", "roots") {
+			for _, o := range origins(st.Val, originOpts{}) {
+				if !(o.Kind == "field" && o.Field != nil && o.Field.Name() == "Roots") && o.Kind != "const" {
+					bad = fmt.Sprintf("the cached root list is assigned at %s from %s, not from the decoded header's Roots", c.Pos(st.Pos()), o.Kind)
+				}
+			}
+		}
+	})
+	if bad == "" && n == 0 {
+		bad = "no return of the header's Roots found"
+	}
+	r.Check(bad == "", key, c.Pos(fn.Pos()), "returns the decoded header's Roots", bad)
+}
+
+func ruleR07n(c *Ctx, r *Report) {
+	n := 0
+	var bad []string
+	for _, fn := range c.RepoFuncs() {
+		if fn.Pkg == nil || fn.Pkg.Pkg.Path() != pkgIndex {
+			continue
+		}
+		eachInstr(fn, func(in ssa.Instruction) {
+			b, ok := in.(*ssa.BinOp)
+			if !ok {
+				return
+			}
+			cl, _ := b.X.(*ssa.Call)
+			if cl == nil || !funcIs(calleeFunc(cl.Common()), "bytes", "", "Compare") {
+				return
+			}
+			if k, isK := constInt(b.Y); !isK || k != 0 {
+				return
+			}
+			// both operands are record digests of an index bucket
+			isRec := func(v ssa.Value) bool {
+				sl, ok := v.(*ssa.Slice)
+				return ok && loadsField(canon(sl.X), pkgIndex, "singleWidthIndex", "index")
+			}
+			if !isRec(cl.Call.Args[0]) || !isRec(cl.Call.Args[1]) {
+				return
+			}
+			n++
+			if b.Op != token.GEQ && b.Op != token.LEQ && b.Op != token.EQL {
+				return
+			}
+			// does the outcome that includes equality lead straight to an error return?
+			for _, ref := range *b.Referrers() {
+				iff, ok := ref.(*ssa.If)
+				if !ok {
+					continue
+				}
+				blk := iff.Block().Succs[0]
+				for i := 0; i < 4 && blk != nil; i++ {
+					last := blk.Instrs[len(blk.Instrs)-1]
+					if ret, ok := last.(*ssa.Return); ok {
+						if len(ret.Results) > 0 && !resultIsNilConst(ret, len(ret.Results)-1) {
+							bad = append(bad, fmt.Sprintf("%s rejects two neighbouring records whose digests compare equal (%s 0) at %s", fnKey(fn), b.Op, c.Pos(b.Pos())))
+						}
+						break
+					}
+					if _, ok := last.(*ssa.Jump); ok {
+						blk = blk.Succs[0]
+						continue
+					}
+					break
+				}
+			}
+		})
+	}
+	sort.Strings(bad)
+	r.Check(len(bad) == 0, "equal-digests-legal@v2/index", "-", fmt.Sprintf("%d record-to-record comparisons, none rejects equality", n),
+		strings.Join(bad, "; ")+": an archive that holds the same block twice, or the same bytes under two codecs, has such neighbours, and its index would be refused")
 }
